@@ -120,6 +120,14 @@ def run(ctx):
     calccheck.run_programs(ctx, programs(ctx), 'convert', sigfn=sig)
     from checks import bcalccheck
     bcalccheck.dep_canonical(ctx, bcalccheck.DEP['C01'])
+    # results whose exact value has a denominator far beyond 10^6 (small metric into large imperial units, amounts
+    # with huge denominators): still the exact ratio, never an approximation (BCalc.tla, big rationals)
+    big = []
+    for (u, v) in (('mm', 'mi'), ('um', 'mi'), ('cm', 'yd'), ('mg', 'lb'), ('g', 'lb'), ('mi', 'mm'), ('m', 'km'), ('km', 'm')):
+        for a in (F(1), F(2, 3000001), F(-7, 3), F(10 ** 20 + 1, 10 ** 20), F(1, 10 ** 9 + 7)):
+            big.append(dict(op='Convert', x=bcalccheck.q(u, a), to=v))
+            big.append(dict(op='Cmp', c='eq', x=bcalccheck.q(u, a), y=bcalccheck.q(u, a)))
+    bcalccheck.run_cases(ctx, big, 'big-denominators')
     if ctx.tier == 'thorough':
         bcalccheck.repo_suite(ctx, {'Convert'})
 
